@@ -261,4 +261,7 @@ def team_cases(draw):
         "node": node,
         "disk": disk,
         "preserve": draw(st.booleans()),
+        # Rally provisions all nodes of one host with the same Car object, one after the other (mechanic.create / Mechanic.start_engine):
+        # in a class of cases another node of the same host is provisioned first, with the very same Car
+        "sibling_node_first": draw(st.integers(0, 2)) == 0,
     }
